@@ -19,7 +19,7 @@ from typing import cast, Any, TypeVar, Union
 from elementpath.aliases import XPathParserType
 from elementpath.helpers import MONTH_DAYS_LEAP, MONTH_DAYS, DAYS_IN_4Y, \
     DAYS_IN_100Y, DAYS_IN_400Y, days_from_common_era, adjust_day, \
-    normalized_seconds, months2days, round_number, LazyPattern
+    normalized_seconds, months2days, round_number, LazyPattern, collapse_white_spaces
 from .any_types import AnyAtomicType
 from .untyped import UntypedAtomic
 
@@ -438,7 +438,7 @@ class AbstractDateTime(AnyAtomicType):
             msg = '2nd argument has an invalid type {!r}'
             raise TypeError(msg.format(type(tzinfo)))
 
-        match = cls.pattern.match(datetime_string.strip())
+        match = cls.pattern.match(collapse_white_spaces(datetime_string))
         if match is None:
             msg = 'Invalid datetime string {!r} for {!r}'
             raise ValueError(msg.format(datetime_string, cls))
@@ -1137,7 +1137,7 @@ class Duration(AnyAtomicType):
             msg = 'argument has an invalid type {!r}'
             raise TypeError(msg.format(type(text)))
 
-        match = cls.pattern.match(text.strip())
+        match = cls.pattern.match(collapse_white_spaces(text))
         if match is None:
             raise ValueError('%r is not an xs:duration value' % text)
 
